@@ -121,6 +121,8 @@ def generate(run_seed: int, tier: str, *, faults: bool) -> dict:
         return [rng.choice(dom) for _ in range(rng.randint(1, min(80, 2 * len(dom))))]
 
     def gen_fault() -> Optional[dict]:
+        if rng.random() < 0.1:
+            return {"kind": "interrupt", "var": None, "at": rng.randint(1, 3500)}
         kinds = []
         if cat_vars:
             kinds += [("cat_to_num", 3), ("level_gain", 4)]
@@ -512,9 +514,12 @@ def execute(scenario: dict, env: Any, *, prop: str) -> dict:
             try:
                 again = canon(spec0.get_model_matrix(tframe, context=world.user_context()), Structured)
             except Exception as e:  # noqa: BLE001
-                raise Violation("c04:refit-raised", {"error": repr(e)[:300]})
+                if prop == "C09":
+                    again = c0  # C04's subject; the C04 check reports it
+                else:
+                    raise Violation("c04:refit-raised", {"error": repr(e)[:300]})
         for (p0, m_0), (p1, m_1) in zip(c0, again):
-            if m_0["names"] != m_1["names"] or not close(m_1["arr"], m_0["arr"]):
+            if prop != "C09" and (m_0["names"] != m_1["names"] or not close(m_1["arr"], m_0["arr"])):
                 raise Violation("c04:refit-differs", {"part": list(p0), "names0": m_0["names"], "names1": m_1["names"], "shape0": m_0["arr"].shape, "shape1": m_1["arr"].shape})
 
         # ---------------------------------------------------------------- history
@@ -566,6 +571,31 @@ def execute(scenario: dict, env: Any, *, prop: str) -> dict:
                     log.append([step, "follow", arr_digest(got)])
                     continue
                 # ------------------------------------------------------ faulty follow-up (C09 configuration)
+                if fault["kind"] == "interrupt":
+                    # an exception lands at the k-th traced line inside formulaic during an otherwise clean follow-up; the
+                    # outcome of this call is ignored, every later clean call must still equal the reference
+                    from checks.c18_purity import Interrupt, Tracer
+
+                    data = frame(ids, op["index"])
+                    tr = Tracer(fault["at"], env.src_root + "/formulaic") if env is not None else None
+                    if tr is None:
+                        continue
+                    with warnings.catch_warnings():
+                        warnings.simplefilter("ignore")
+                        tr.start()
+                        try:
+                            call(h["spec"], op["entry"], data, h.get("mm"))
+                        except (Interrupt, Exception):  # noqa: BLE001
+                            pass
+                        finally:
+                            tr.stop()
+                    if tr.fired:
+                        faults_seen += 1
+                        bump(stats, "faults", "interrupt")
+                        last_touch[op["h"]] = ["fault"]
+                        sig.append(["fault", "interrupt", h["kind"]])
+                    log.append([step, "fault", "interrupt", bool(tr.fired)])
+                    continue
                 cv = classify_var(h.get("atoms", atoms), fault["var"])
                 if fault["var"] not in h.get("vars", [fault["var"]]):
                     continue  # the subset spec does not use the faulted variable at all
